@@ -638,6 +638,64 @@ func withTrueColor(ti terminfo.Terminfo) terminfo.Terminfo {
 	return ti
 }
 
+// sweepPlans builds the code-point sweep (C09): every selected code point as primary content through
+// SetContent - in even columns and, for runes that must be blanked, also in the last column - 512 per
+// Show on a 64x16 screen, and every rune that must be blanked through Fill on an 8x3 screen.
+func sweepPlans(full, legacy bool) [][]sop {
+	var cps []rune
+	var forbidden []rune
+	step := rune(257)
+	if full {
+		step = 1
+	}
+	for r := rune(0); r <= 0x10ffff; r++ {
+		c := runes.ClassScreen(r)
+		if c == 0 {
+			if full || r < 0x3000 || r%7 == 0 || (r >= 0xd800 && r < 0xd810) || r > 0xe0000 {
+				forbidden = append(forbidden, r)
+			}
+			continue
+		}
+		if c == -1 || legacy {
+			continue // no agreed width / legacy locales are swept for the forbidden classes only
+		}
+		if r%step == 0 || r < 0x250 {
+			cps = append(cps, r)
+		}
+	}
+	forbidden = append(forbidden, -1, -77, 0x110000, 0x7fffffff)
+	st := tcell.StyleDefault
+	var plans [][]sop
+	all := append(append([]rune{}, forbidden...), cps...)
+	// 32x4 screens, 15 code points per row (even columns), several Shows per history
+	for i := 0; i < len(all); i += 600 {
+		var ops []sop
+		for j := i; j < i+600 && j < len(all); j += 60 {
+			ops = append(ops, sop{Op: "Clear"})
+			for k := 0; k < 60 && j+k < len(all); k++ {
+				r := all[j+k]
+				x, y := (k%15)*2, k/15
+				if runes.ClassScreen(r) == 0 && k%15 == 14 {
+					x = 31 // the last column
+				}
+				ops = append(ops, sop{Op: "SetContent", X: x, Y: y, R: r, St: st})
+			}
+			ops = append(ops, sop{Op: "Show"})
+		}
+		ops = append(ops, sop{Op: "Fini"})
+		plans = append(plans, ops)
+	}
+	for i := 0; i < len(forbidden); i += 40 {
+		var ops []sop
+		for k := 0; k < 40 && i+k < len(forbidden); k++ {
+			ops = append(ops, sop{Op: "Fill", R: forbidden[i+k], St: st}, sop{Op: "Show"})
+		}
+		ops = append(ops, sop{Op: "Fini"})
+		plans = append(plans, ops)
+	}
+	return plans
+}
+
 func screenMain(args []string) error {
 	fs := flag.NewFlagSet("screen", flag.ExitOnError)
 	out := fs.String("out", "trace.ndjson", "trace file")
@@ -650,6 +708,7 @@ func screenMain(args []string) error {
 	behEvery := fs.Int("behevery", 1, "replay every n-th generated history only")
 	big := fs.Int("big", 0, "every big-th history uses a large screen (0: never)")
 	charset := fs.String("charset", "UTF-8", "locale character set")
+	sweep := fs.String("sweep", "", "code-point sweep instead of random histories: quick | full")
 	fs.Parse(args)
 	encoding.Register()
 
@@ -704,6 +763,25 @@ func screenMain(args []string) error {
 		f.Close()
 	}
 	cnt := 0
+	if *sweep != "" {
+		for _, name := range names {
+			base := *terminfo.VerifEntry(name)
+			for k, ops := range sweepPlans(*sweep == "full", *charset != "UTF-8") {
+				r := &screenRun{tw: tw, rng: rng, term: name, ti: base, stats: stats, mix: "draw", charset: *charset}
+				w, h := 32, 4
+				if len(ops) > 0 && ops[0].Op == "Fill" {
+					w, h = 8, 3
+				}
+				if err := r.run(ops, w, h, false, k%2 == 0); err != nil {
+					if err == errHang {
+						goto finish
+					}
+					return fmt.Errorf("%s: %v", name, err)
+				}
+			}
+		}
+		names = nil // nothing else to run
+	}
 	for _, name := range names {
 		base := *terminfo.VerifEntry(name)
 		for i := 0; i < *n+len(planned); i++ {
